@@ -386,8 +386,10 @@ func (vc *FnVC) oblige(kind, label, guard, goal string, pos token.Pos, clause st
 	if k := vc.obNames[name]; k > 1 {
 		name = fmt.Sprintf("%s~%d", name, k)
 	}
-	if props == nil && vc.c != nil {
-		props = vc.c.Props
+	if vc.c != nil {
+		// an obligation counts for the properties named on its clause and for every property its function is
+		// listed under: a property that rests on a function rests on all the function is proved to do
+		props = unionProps(props, vc.c.Props)
 	}
 	o := &Obligation{Name: name, Kind: strings.SplitN(kind, "@", 2)[0], Func: vc.fnName, Props: props, Prefix: len(vc.cmds), Goal: imp(guard, goal),
 		Pos: vc.w.pos(pos), Clause: clause, vc: vc}
@@ -2200,4 +2202,17 @@ func (vc *FnVC) globalInvariants(reach string, entry, exit *state, pos token.Pos
 type postView struct {
 	reach string
 	e     *env
+}
+
+func unionProps(a, b []string) []string {
+	if len(a) == 0 {
+		return b
+	}
+	out := append([]string(nil), a...)
+	for _, p := range b {
+		if !hasProp(out, p) {
+			out = append(out, p)
+		}
+	}
+	return out
 }
